@@ -460,10 +460,14 @@ func (t *taintEng) callResult(call *ssa.Call, idx int, depth int) string {
 	case "fmt.Sprint", "fmt.Sprintln":
 		return t.find(cc.Args[0], depth+1)
 	case "strings.ReplaceAll", "strings.Replace":
-		if old, ok := constString(cc.Args[1]); ok && old == "\n" {
+		// Replacing "\n" alone does not make a text one line: a carriage return (or NEL, LS, PS) from the echoed input
+		// still breaks the header line (F64). Only a replacer that covers CR as well is a sanitiser (below).
+		return t.find(cc.Args[0], depth+1)
+	case "(*strings.Replacer).Replace":
+		if replacerCoversLineBreaks(t.p, cc.Args[0]) {
 			return ""
 		}
-		return t.find(cc.Args[0], depth+1)
+		return t.find(cc.Args[1], depth+1)
 	case "strings.Join":
 		return t.find(cc.Args[0], depth+1)
 	case "strings.ToLower", "strings.ToUpper", "strings.TrimSpace", "strings.TrimPrefix", "strings.TrimSuffix", "strings.TrimRight", "strings.TrimLeft", "strings.Trim", "strings.Repeat", "strings.Title", "path/filepath.Join", "path/filepath.FromSlash", "path/filepath.ToSlash", "path/filepath.Base", "path/filepath.Dir", "path/filepath.Clean":
@@ -532,7 +536,68 @@ func (t *taintEng) callResult(call *ssa.Call, idx int, depth int) string {
 			}
 		}
 	}
+	// a string function outside the module that is not in the tables above: its result may carry its string arguments
+	if f != nil && !inModule(f) && (strings.HasPrefix(name, "strings.") || strings.HasPrefix(name, "(*strings.") || strings.HasPrefix(name, "bytes.") || strings.HasPrefix(name, "unicode/utf8.")) {
+		if b, ok := call.Type().Underlying().(*types.Basic); ok && b.Info()&types.IsString != 0 {
+			for _, a := range cc.Args {
+				if ab, ok := a.Type().Underlying().(*types.Basic); ok && ab.Info()&types.IsString != 0 {
+					if r := t.find(a, depth+1); r != "" {
+						return r
+					}
+				}
+			}
+		}
+	}
 	return ""
+}
+
+// replacerCoversLineBreaks: the *strings.Replacer is a package-level variable initialised once by strings.NewReplacer with
+// constant arguments that map "\n" and "\r" (at least) to texts without line breaks.
+func replacerCoversLineBreaks(p *Prog, v ssa.Value) bool {
+	ld, ok := v.(*ssa.UnOp)
+	if !ok {
+		return false
+	}
+	g, ok := ld.X.(*ssa.Global)
+	if !ok {
+		return false
+	}
+	initFn := g.Pkg.Func("init")
+	if initFn == nil {
+		return false
+	}
+	stores, okAll := 0, false
+	for _, fn := range append([]*ssa.Function{initFn}, p.Funcs...) {
+		eachInstr(fn, func(_ *ssa.BasicBlock, _ int, in ssa.Instruction) {
+			st, ok := in.(*ssa.Store)
+			if !ok || st.Addr != ssa.Value(g) {
+				return
+			}
+			stores++
+			call, ok := st.Val.(*ssa.Call)
+			if !ok || calleeFullName(&call.Call) != "strings.NewReplacer" {
+				return
+			}
+			args, ok := variadicArgs(call.Call.Args[0])
+			if !ok || len(args)%2 != 0 {
+				return
+			}
+			covered := map[string]bool{}
+			clean := true
+			for i := 0; i+1 < len(args); i += 2 {
+				from, ok1 := constString(args[i])
+				to, ok2 := constString(args[i+1])
+				if !ok1 || !ok2 || strings.ContainsAny(to, "\n\r\u0085\u2028\u2029") {
+					clean = false
+				}
+				covered[from] = true
+			}
+			if clean && covered["\n"] && covered["\r"] {
+				okAll = true
+			}
+		})
+	}
+	return stores == 1 && okAll
 }
 
 func (t *taintEng) returns(f *ssa.Function, idx int, depth int) string {
